@@ -33,7 +33,8 @@ RULE = (
     "the built-in default, exists or not per option) x value assignments from the per-kind alphabet (rotations so "
     "that every present source carries a different valid value; all assignments for two-valued kinds) x spellings "
     "(ints base 2/8/10/16, hex bytes, ranges, 2-D ranges, enums by name/value/hex value, URIs, paths, --x/--no-x, "
-    "const form, short flag, multi-token lists); + one invalid value per source as the effective source; + JSON "
+    "const form, short flag, multi-token lists); + the present-but-empty value \"\" in each source for every option "
+    "whose type accepts it (alone and above non-empty lower sources); + one invalid value per source as the effective source; + JSON "
     "round trip of every accepted config; + META.json/Rerunner and run_meta(DB) re-load per command; + --template "
     "keys. evaluation = one parse (or one reload/template key) judged by the oracle; non-trivial = distinct "
     "(command, option, set of providing sources, winning source, value, spelling) with at least one non-default source"
@@ -654,6 +655,27 @@ def run_option(path: tuple[str, ...], name: str, tier: str) -> Result:
                             if key not in done:
                                 done.add(key)
                                 run_case(path, opt, provided, res)
+    # present-but-empty values: "" in a source is a value (CLI > env > file > default still holds)
+    ev = M.empty_value(opt.kind)
+    if ev is not None:
+        ectx = context(path, {name: ev.expected})
+        raw_ok = ectx is not None and _instantiable(
+            G["leaves"][path].CONFIG_TYPE, {**{n: v.expected for n, v in ectx.items() if n != name}, name: ""}
+        )
+        if not raw_ok:
+            res.count("options_not_accepting_empty_string")
+        else:
+            res.count("options_accepting_empty_string")
+            nonempty = [v for v in pool if M.canon_expected(v.expected) != M.canon_expected(ev.expected)] or pool
+            for si, s in enumerate(avail):
+                lower = avail[si + 1 :]
+                for lows in ((), tuple(lower)) if lower else ((),):
+                    for sp in range(n_cli_variants(opt, ev) if s == "cli" else len(getattr(ev, s))):
+                        provided = {s: (ev, sp)}
+                        for i, l in enumerate(lows):
+                            provided[l] = (nonempty[i % len(nonempty)], 0)
+                        res.count("empty_value_cases")
+                        run_case(path, opt, provided, res)
     # const form: --opt without a value
     if opt.const is not M.UNDEF and "cli" in avail:
         for lows in ((), tuple(lower_srcs)):
@@ -1093,7 +1115,17 @@ def replay(doc: dict[str, Any]) -> Result:
         path = tuple(doc["path"])
         opt = next(o for o in G["opts"][path] if o.name == doc["option"])
         alph = M.alphabet(opt.kind)
-        provided = {s: (alph[vi], sp) for s, (vi, sp) in doc["provided"].items()}
+        def val_of(vi: int) -> M.Val:
+            if vi == M.EMPTY_IDX:
+                ev = M.empty_value(opt.kind)
+                assert ev is not None
+                return ev
+            if vi >= len(alph):
+                d = opt.default
+                return M.Val(d, [[d]], [d], [d], idx=vi)
+            return alph[vi]
+
+        provided = {s: (val_of(vi), sp) for s, (vi, sp) in doc["provided"].items()}
         res = Result()
         inv = doc.get("invalid")
         if inv:
@@ -1123,6 +1155,8 @@ def finish(merged: Result, tier: str) -> dict[str, Any]:
         raise Broken("vacuous: rerun hardly exercised")
     if c.get("invalid_cases", 0) < 1500 or c.get("template_keys", 0) < 500 or c.get("registry_keys", 0) < 20:
         raise Broken("vacuous: invalid value / template clauses hardly exercised")
+    if c.get("empty_value_cases", 0) < 1000:
+        raise Broken(f"vacuous: only {c.get('empty_value_cases', 0)} present-but-empty value cases evaluated")
     if c.get("required_missing_cases", 0) < 30 or c.get("mixed_cases", 0) + c.get("mixed_attempts", 0) < 60:
         raise Broken("vacuous: required-missing / mixed-source cases hardly exercised")
     if not c.get("violating_cases") and c.get("roundtrips", 0) < 15000:
